@@ -165,6 +165,10 @@ def _history():
 CONTRACTS = [find_match, match]
 REGISTRY = [find_match_for_callers]
 LEMMAS = []
+from contracts import c13 as _c13  # noqa: E402
+
+# the window is computed from the normalised time: numbers as given, date-times through their UTC reading (shared with C13)
+CONTRACTS += [c for c in _c13.CONTRACTS if c.id.startswith("normalize_time")]
 BOUNDED = [Bounded("c14", "harness/c14.py", descr="exhaustive small period/window/skew/last_counter/time through the real match()")]
 
 MUTANTS = [
